@@ -12,6 +12,9 @@ CHECKS = {
  "C01": (MC, HIST + "; convergence decided by a fair drain suffix from every reached state",
          "All histories up to depth 5 (thorough 7) over {answer requests in/out of order, extend 1/2/12, reorg depth 1/2, return to abandoned branch, ping, tick, settle, duplicate, clean restart, connection drop} from a synced and a cold-start scenario; from every reached state the node must converge to the peer's best chain after a drain incl. 61 s/601 s time-outs; HandleInSync only when all announced blocks are held.",
          NOTE_NODE, "DESIGN.md §4 C01"),
+ "C02": (MC, HIST + " with an adversarial trusted connection; invariants after every event",
+         "All sequences up to depth 5 (8) of header messages (lists drawn from a tree with forks at processed / pending / pre-start blocks, duplicates, gaps, unknown parents, empty) and block messages (requested, unrequested, duplicate, unknown) with block-processor steps in between, in three scenarios (normal, start block not yet seen, fork across the 1000-header file boundary): parent linkage of every stored block, Hash/Height inverse both ways, contiguous HandleHeaders heights (shadow chain), no panic.",
+         "No assumption on peer behaviour beyond well-formed wire messages; canonical thread schedule between events; hash->height direction read from the private map by reflection (public twin: Height(Hash(h))).", "DESIGN.md §4 C02"),
  "C03": (MC, HIST + "; per-txid delivery monitor as oracle",
          "All histories up to depth 4 (thorough 6) of how relevant/child/irrelevant txs reach the node (trusted/untrusted inv and tx, getdata answers, local submission, blocks, restart, crash): HandleTx at most once per handler and txid, completeness, no irrelevant delivery, spent outputs per input, identical handler streams.",
          NOTE_NODE, "DESIGN.md §4 C03"),
@@ -24,11 +27,17 @@ CHECKS = {
  "C07": (MC, HIST + " with virtual clock; state-trajectory oracle + liveness phase from every state",
          "All histories up to depth 4 (6) mixing untrusted/trusted announcements, conflicts, clock steps around the 2000 ms safe delay, confirmation, local submission, restart; invariants on every per-txid state sequence and safe-within-bound when warranted.",
          NOTE_NODE, "DESIGN.md §4 C07"),
+ "C19": (MC, "stateless schedule exploration of the real Node.Run with one deviation (Stop / connection close / reset / stall / pre-emption) inserted at every scheduling point of scripted baselines",
+         "Five baselines (cold start with sync+txs+block, refused dials, in sync with an untrusted peer, scripted connection loss, scripted Stop with concurrent application calls); at every scheduling point one deviation; Run/Stop return within retry delay + 4 s virtual time, no thread left, no callback after Stop, storage equals memory, reconnect converges without re-announcing.",
+         NOTE_NODE + " Deviation bound 1 over scripted baselines (some baselines script a first event so that two-event races are covered); atomics are not scheduling points.", "DESIGN.md §4 C19"),
  "C09": (MC,
          "bounded-exhaustive enumeration of operation sequences on the real BlockRepository vs a reference slice (explicit enumeration, no sampling)",
          "Every sequence of <=3 (thorough: <=4) macro operations {add, grow to boundary, revert to boundary, save, save+reload} over the 1000-header file boundaries is executed on the real block repository over an in-memory store (both delete-missing behaviours) and every by-height / by-hash / tip / range query is compared with a reference list after every step.",
          "Storage write/remove atomic per key; synthetic headers (no PoW); heights concentrated at 0, 1000k-1, 1000k, 1000k+1 (k<=3) and tip.",
          "DESIGN.md §4 C09"),
+ "C10": ("fault_enumeration", "crash-point and single-fault enumeration over the storage mutation/operation log of canonical histories executed on the real node (every prefix, every operation)",
+         "For each canonical history (sync, extension, reorgs within a file and across the 1000 boundary, reorg with a relevant tx, clean stop; both delete-missing behaviours): a fresh node on EVERY prefix image of the mutation log must load a hash-linked single-branch chain and re-converge; EVERY single storage operation failing once must leave a node that converges, or one that does after a restart.",
+         NOTE_NODE + " Crash = loss of all threads between two storage mutations; writes atomic per key.", "DESIGN.md §4 C10"),
  "C11": (MC, HIST + " with clean restart events",
          "All histories up to depth 4 (6) with Stop + new Node on the same store at any quiescent point: no re-delivery, confirmation after restart is an update with proof, safe not repeated, flags sticky, GetTx returns the delivered tx.",
          NOTE_NODE, "DESIGN.md §4 C11"),
